@@ -352,7 +352,7 @@ def run(ctx: Ctx):
     base = ctx.rng("c15").randrange(1 << 30)
 
     s = Stream(ctx, "(i) histories on a shared evaluable")
-    res = pmap(history_worker, [base + i for i in range(ctx.size(300, 6000))], ctx.jobs, chunk=10)
+    res = pmap(history_worker, [base + i for i in range(ctx.size(300, 20000))], ctx.jobs, chunk=10)
     lines, results = [], []
     for j, (n, fails, problems, ls, rs) in enumerate(res):
         s.evaluations += n
@@ -388,7 +388,7 @@ def run(ctx: Ctx):
     s.finish()
 
     s = Stream(ctx, "(iv) shuffled directory enumeration and exclusion pattern order")
-    res = pmap(scan_order_worker, [base + 104729 * i for i in range(ctx.size(120, 2400))], ctx.jobs, chunk=5)
+    res = pmap(scan_order_worker, [base + 104729 * i for i in range(ctx.size(120, 6000))], ctx.jobs, chunk=5)
     for j, problems in enumerate(res):
         s.evaluations += 4
         s.nontrivial.add(j)
